@@ -15,7 +15,7 @@ CXT_EXTRA = TABLE_EXTRA + ['a|b', '#1', 'p#q', '|', 'X|', 'c#']
 LIT_EXTRA = ["'", "both ' and \"", '\\', '\\n', "\\'", '\\x41', '\x00\x01\x1f\x7f', '\x80\x9f\xa0\xad\xff', '\u2028\u2029',
              '\ud7ff\ue000\ufffe', '\U0001f600', '\U000e0001', '\U0010ffff', 'a\u0300', '\u200b', '\ufeff', '\u0378', '\u0660', '{', '}', '(', ')', ':', '[',
              "'''", '"""', '\\"', "\\\\'"]
-CSV_EXTRA = CXT_EXTRA + [' lead', 'trail ', 'line\nbreak', 'cr\rinside', 'crlf\r\nin', '"', '""', ',', ',,', '\ttab', 'a\n', '\n', ' ']
+CSV_EXTRA = CXT_EXTRA + [' lead', 'trail ', 'line\nbreak', 'cr\rinside', 'crlf\r\nin', '"', '""', ',', ',,', '\ttab', 'a\n', '\n', ' ', 'a\n\nb', 'x\n  \ny', 'a\r\n\r\nb', '\n\n']
 
 
 def hexs(s):
